@@ -310,6 +310,12 @@ fn c07_suite<S: ShortGroupSignatureScheme>(em: &mut Emitter, base: &mut Rng, sui
         let others: Vec<Scalar> = scn.bundles.iter().flat_map(|b| b.credential.claims.iter().enumerate().filter(|(i, _)| *i != ci).map(|(_, c)| c.to_scalar()).collect::<Vec<_>>()).collect();
         let mut found = distinguishers(&view, &gens, &m0, &m1, &others);
         found.extend(byte_distinguishers(&view, &m0, &m1));
+        if let Some(g) = scn.schema.statements.values().find_map(|s| match s {
+            Statements::VerifiableEncryptionDecryption(x) => Some(x.message_generator),
+            _ => None,
+        }) {
+            found.extend(ved_aes_distinguisher(&serde_json::to_value(&p).unwrap_or(Value::Null), &g, &m0, &m1));
+        }
         // two presentations of the same credential: response difference quotient at equal positions
         if let Out::Ok(p2) = scn.create() {
             let v2 = view_of(&p2);
@@ -338,14 +344,133 @@ fn c07_suite<S: ShortGroupSignatureScheme>(em: &mut Emitter, base: &mut Rng, sui
     }
 }
 
+/// the VB20 membership prover's coins (recovered from two answers to one commitment) must be free of exact
+/// algebraic relations of low degree — equal coins, a coin that is the sum / difference / product of two
+/// others or of the hidden element — and must not repeat across commitments: each such relation turns the
+/// published responses into equations a dictionary test can solve for the hidden element
+/// encrypt-and-decrypt proofs: the AES key that protects the claim text is derived from K·b = c2 − m·M, which a
+/// candidate m lets anyone compute — the authenticated ciphertext then says whether the guess is right
+fn ved_aes_distinguisher(v: &Value, gens_m: &G1Projective, m0: &Scalar, m1: &Scalar) -> Vec<String> {
+    use aes_gcm::aead::{Aead, KeyInit, Payload};
+    use aes_gcm::{Aes128Gcm, Nonce};
+    let mut found = vec![];
+    let proofs = match v["proofs"].as_object() {
+        Some(p) => p,
+        None => return found,
+    };
+    for (id, pr) in proofs {
+        let ved = &pr["VerifiableEncryptionDecryption"];
+        if ved.is_null() {
+            continue;
+        }
+        let (c1, c2) = match (ved["c1"].as_str().and_then(g1_of_hex), ved["c2"].as_str().and_then(g1_of_hex)) {
+            (Some(a), Some(b)) => (a, b),
+            _ => continue,
+        };
+        let ct: Vec<u8> = match &ved["ciphertext"] {
+            Value::String(h) => unhex(h),
+            Value::Array(a) => a.iter().filter_map(|x| x.as_u64().map(|b| b as u8)).collect(),
+            _ => continue,
+        };
+        if ct.len() < 28 {
+            continue;
+        }
+        let test = |m: &Scalar| -> bool {
+            let ikm = c2 - *gens_m * *m;
+            let mut t = merlin::Transcript::new(b"PresentationEncryptionDecryption arbitrary data derive aes key");
+            t.append_message(b"key ikm", ikm.to_compressed().as_slice());
+            let mut okm = [0u8; 32];
+            t.challenge_bytes(b"aes key", &mut okm);
+            let key = aes_gcm::Key::<Aes128Gcm>::from_slice(&okm[..16]);
+            let aad: Vec<u8> = okm[16..].iter().copied().chain(c1.to_compressed()).chain(c2.to_compressed()).collect();
+            Aes128Gcm::new(key).decrypt(Nonce::from_slice(&ct[..12]), Payload { msg: &ct[12..], aad: &aad }).is_ok()
+        };
+        if test(m0) != test(m1) {
+            found.push(format!("ved-aes-key-from-candidate:{}", id));
+        }
+    }
+    found
+}
+
+fn vb20_coin_relations(em: &mut Emitter, rng: &mut Rng) {
+    use credx::knox::accumulator::vb20::{self, Accumulator, Element, MembershipProofCommitting, MembershipWitness, ProofParams};
+    use credx::knox::short_group_sig_core::{HiddenMessage, ProofMessage};
+    let names = ["sigma", "rho", "r_y", "r_sigma", "r_rho", "r_delta_sigma", "r_delta_rho"];
+    let mut previous: Vec<Scalar> = vec![];
+    for k in 0..em.n(6, 40) {
+        let sk = vb20::SecretKey::new(Some(&rng.bytes(32)));
+        let pk = vb20::PublicKey::from(&sk);
+        let v0 = Accumulator::random(rng.chacha());
+        let nonce = rng.bytes(16);
+        let params = ProofParams::new(pk, Some(&nonce));
+        let y = rng.scalar();
+        let witness = MembershipWitness::new(Element(y), v0, &sk);
+        let committing = MembershipProofCommitting::new(ProofMessage::Hidden(HiddenMessage::ProofSpecificBlinding(y)), witness, params, pk);
+        let (c1, c2) = (rng.scalar(), rng.scalar());
+        let j1 = serde_json::to_value(&committing.gen_proof(Element(c1))).unwrap();
+        let j2 = serde_json::to_value(&committing.gen_proof(Element(c2))).unwrap();
+        let f = |j: &Value, k: &str| sc_from_hex(j[k].as_str().unwrap_or("")).unwrap_or(Scalar::ZERO);
+        let dinv = (c1 - c2).invert().unwrap();
+        let ex = |key: &str| {
+            let w = (f(&j1, key) - f(&j2, key)) * dinv;
+            (w, f(&j1, key) - c1 * w)
+        };
+        let (sigma, r_sigma) = ex("s_sigma");
+        let (rho, r_rho) = ex("s_rho");
+        let (_, r_y) = ex("s_y");
+        let (_, r_ds) = ex("s_delta_sigma");
+        let (_, r_dr) = ex("s_delta_rho");
+        let coins = [sigma, rho, r_y, r_sigma, r_rho, r_ds, r_dr];
+        em.oracle_case(&format!("vb20 coins {}", k));
+        let mut found: Vec<String> = vec![];
+        // operands: the coins, the hidden element, the constants 0 and 1
+        let mut operands: Vec<(String, Scalar)> = names.iter().zip(coins.iter()).map(|(n, c)| (n.to_string(), *c)).collect();
+        operands.push(("y".into(), y));
+        operands.push(("1".into(), Scalar::ONE));
+        for (i, ci) in coins.iter().enumerate() {
+            if bool::from(ci.is_zero()) {
+                found.push(format!("{}=0", names[i]));
+            }
+            for (a, (an, av)) in operands.iter().enumerate() {
+                if a == i {
+                    continue;
+                }
+                if ci == av || *ci == -*av {
+                    found.push(format!("{}=±{}", names[i], an));
+                }
+                for (b, (bn, bv)) in operands.iter().enumerate().skip(a + 1) {
+                    if b == i {
+                        continue;
+                    }
+                    for (op, val) in [("*", *av * *bv), ("+", *av + *bv), ("-", *av - *bv)] {
+                        if *ci == val || *ci == -val {
+                            found.push(format!("{}=±({}{}{})", names[i], an, op, bn));
+                        }
+                    }
+                }
+            }
+            if previous.contains(ci) {
+                found.push(format!("{} repeats a coin of an earlier commitment", names[i]));
+            }
+        }
+        previous.extend_from_slice(&coins);
+        for r in found {
+            em.violation("c07:vb20-coins-related", format!("the membership prover's coins satisfy an exact relation: {} — the responses then determine the hidden element for a dictionary attacker", r), json!({"relation": r, "proof_1": j1, "proof_2": j2, "c1": sc_hex(&c1), "c2": sc_hex(&c2)}));
+        }
+    }
+}
+
 pub fn gen_c07(em: &mut Emitter, rng: &mut Rng) {
     em.rule = "honest presentations per statement kind touching a hidden claim (commitment, range, ElGamal with / without byte decomposition, \
                encrypt-and-decrypt, revocation, membership, equality, signature only), every claim type; two candidates (the signed value and another \
                plausible one); catalogue on public data only: transmitted scalar / point is a deterministic image of the candidate, nonce-reuse \
                solver P − (p − c·m)·Q ∈ {0, m·Q'} over all responses p, points P, public generators Q, Q', per-byte variant, point ratios, \
-               cross-presentation difference quotients. oracle: a test that evaluates differently on the two candidates".into();
+               cross-presentation difference quotients; the VB20 prover's coins (recovered from two answers to one commitment) are tested for exact low-degree relations and repeats. oracle: a test that evaluates differently on the two candidates".into();
     c07_suite::<Bbs>(em, rng, "bbs");
     c07_suite::<Ps>(em, rng, "ps");
+    if em.mine(2 * em.n(20, 200)) {
+        vb20_coin_relations(em, &mut rng.sub(6001));
+    }
 }
 
 // ------------------------------------------------------------------------------------------------
